@@ -318,6 +318,59 @@ def observe_arrays(ctx, legacy):
                 ctx.outcome('ok')
 
 
+SWITCH_ARGUMENTS = [True, False, 1, 0, None, '1', 'yes', 'false', '', 2, -1,
+                    0.0, 1.5, [1], [], (), (0,), {}, {'a': 1}, b'', b'0',
+                    object(), float('nan')]
+
+
+def check_switch_arguments(ctx):
+    """The switch is documented as a bool and implemented as a truth value:
+    whatever it is called with, afterwards the ladder in force is the legacy
+    one exactly when the argument was true; a call that is refused leaves the
+    ladder as it was."""
+    e = lib.pamqp().encode
+    probes = [40000, 3000000000, -129, 65535]
+    for before in (False, True):
+        for no, arg in enumerate(SWITCH_ARGUMENTS):
+            set_switch(before)
+            label = 'support_deprecated_rabbitmq(%s) after %s' % (
+                short(arg, 30), before)
+            ctx.case(('switch-arg', before, no), True,
+                     sample={'call': label})
+            ctx.valid()
+            try:
+                e.support_deprecated_rabbitmq(arg)
+                expected = bool(arg)
+                ctx.calls()
+            except Exception:  # noqa
+                expected = before
+            bad = None
+            for n in probes:
+                for func, wrap, ref in (
+                        (e.table_integer, lambda v: v,
+                         lambda v: refcodec.enc_value(v, expected)),
+                        (e.field_table, lambda v: {'k': [v]},
+                         lambda v: refcodec.enc_table({'k': [v]}, expected))):
+                    try:
+                        got = func(wrap(n))
+                    except Exception as exc:  # noqa
+                        got = repr(exc).encode()
+                    if got != ref(n):
+                        bad = (n, got, ref(n))
+            if bad:
+                ctx.outcome('wrong-ladder')
+                ctx.violation('switch-arg|{}|{}'.format(before, no),
+                              '{}: {} is then encoded as {} but the ladder '
+                              'for legacy={} gives {}'.format(
+                                  label, bad[0], bad[1].hex()[:40], expected,
+                                  bad[2].hex()[:40]),
+                              {'kind': 'switch-arguments'}, bad[2].hex(),
+                              bad[1].hex())
+            else:
+                ctx.outcome('ok')
+    set_switch(False)
+
+
 def check_fixed_wrapped(ctx):
     """The fixed-width encoders given an int SUBCLASS instance or an object
     that is merely usable as an integer (__index__): it may be refused
@@ -704,6 +757,7 @@ def run(task, ctx):
             check_generations(ctx)
         elif task[0] == 'fixed' and len(task) > 1:
             check_fixed_wrapped(ctx)
+            check_switch_arguments(ctx)
         elif task[0] == 'fixed':
             set_switch(False)
             check_fixed(ctx)
@@ -743,6 +797,8 @@ def replay(case, ctx):
             check_generations(ctx)
         elif case['kind'] == 'fixed-wrapped':
             check_fixed_wrapped(ctx)
+        elif case['kind'] == 'switch-arguments':
+            check_switch_arguments(ctx)
         elif case['kind'] == 'fixed':
             check_fixed(ctx)
             ctx.violations = [v for v in ctx.violations if v['case'] == case]
